@@ -115,6 +115,28 @@ claim("C17",
       TB + "Model time advances only by the script's sleeps; native-TTL engines' clocks are assumed.",
       "Lean 4 proof + regenerated source facts + differential correspondence with a model clock", "DESIGN.md §5 C17")
 
+claim("C09",
+      "Lean theorems KB.Props.C09 over KB.Sys with the fault oracle on every commit (incl. the repair write) and the retry loop: an acknowledged success "
+      "was applied; a definite conflict applied nothing; an unknown outcome is reported as the uncertain error; the retry's own revision is resolved; "
+      "compaction is capped below the oldest queued revision; an unrepaired write stays queued; CONVERGENCE: in every quiescent state (nothing in flight, "
+      "queue drained) the last applied write of every key is the last event handed to the watchers - for all schedules and all fault placements "
+      "(after fixes 35be7da, f99b060). Correspondence: every single fault placement x {applied, not} x repair outcomes on create/update/delete + random sequences, three engines.",
+      TB + "Keys over the alphabet (the counterexample for keys containing the split byte is proved); non-empty, non-tombstone values; the retry step is atomic in the LTS.",
+      "Lean 4 proof (coverage invariant over all schedules with faults) + fault-placement differential correspondence", "DESIGN.md §5 C09")
+claim("C15",
+      "Lean theorems KB.Props.C15: IF the engine timestamp a new leader starts from dominates every stored revision THEN its state is a well-formed initial "
+      "state of KB.Sys (so C01/C02/C04 apply), every revision it hands out exceeds every stored one and reads at its revision see everything. The clock "
+      "hypothesis is assumed and CHECKED on every run for memkv/tikv; for Badger it is false (proved counter model + model witness) and the check reproduces it: known finding.",
+      TB + "Engine clocks (wall clock, PD TSO) are outside the model; restarts are judged by an oracle on the implementation only (revisions are wall-clock values).",
+      "Lean 4 proof (conditional on the clock hypothesis, which each run checks) + restart scenarios on every engine", "DESIGN.md §5 C15")
+claim("C18",
+      "Lean theorems KB.Props.C18: `role_table` by decide over the handler-guard table REGENERATED from both servers' handlers (every write/watch handler on a "
+      "follower forwards or refuses without touching the backend; every read handler syncs first and returns the sync error); follower read-sync LTS: the full "
+      "freshness statement is refuted (`joined_fetch_is_stale`, `late_set_lowers_revision`: two known findings replayed on the real syncer every run), proved for "
+      "non-overlapping reads and for the proposed repair. Correspondence: every handler x role x proxy x leader behaviour (exhaustive) + follower schedules.",
+      TB + "kbextract's syntactic guard analysis (cross-checked row by row by the exhaustive run); role does not change within a request.",
+      "Lean 4 proof + decide over a regenerated table + exhaustive differential table run", "docs/DESIGN-C18.md")
+
 ALL = ["C%02d" % i for i in range(1, 21)]
 
 
